@@ -122,7 +122,54 @@ def make_cases(seed, tier, ndefs=None, ntypes=None, nvals=None):
                 break
         for j, v in enumerate(vals):
             cases.append(Case("c%dv%d" % (i, j), "t%d" % i, t, v))
+    # twins: every case that holds a slice reference or an iterator wrapper gets the same case
+    # with vectors in their place (C16 compares the two streams byte for byte)
+    twins = []
+    for c in cases:
+        if ser_only(c.t):
+            tw = Case(c.cid + "w", c.tid + "w", vecty(U, c.t), normv(U, c.t, c.v))
+            tw.twin_of = c.cid
+            twins.append(tw)
+    for tw in twins:
+        types.append(tw.t)
+    cases += twins
     return U, types, cases
+
+
+def vecty(U, t):
+    k = t[0]
+    if k in ("sref", "siter"):
+        return ("vec", vecty(U, t[1]))
+    if k in ("vec", "bslice", "opt", "bound"):
+        return (k, vecty(U, t[1]))
+    if k == "arr":
+        return (k, t[1], vecty(U, t[2]))
+    if k == "cf":
+        return (k, vecty(U, t[1]), vecty(U, t[2]))
+    if k == "adt":
+        return (k, t[1], tuple(vecty(U, a) for a in t[2]))
+    return t
+
+
+def normv(U, t, v):
+    k = t[0]
+    if k == "siter":
+        return ("s", [normv(U, t[1], x) for x in v[2]])
+    if k in ("sref", "vec", "bslice"):
+        return ("s", [normv(U, t[1], x) for x in v[1]])
+    if k == "arr":
+        return ("s", [normv(U, t[2], x) for x in v[1]])
+    if k in ("opt", "bound"):
+        return ("t", v[1], [normv(U, t[1], x) for x in v[2]])
+    if k == "cf":
+        return ("t", v[1], [normv(U, t[1 + v[1]], x) for x in v[2]])
+    if k == "adt":
+        d = U.defs[t[1]]
+        b = inst_fields(U, t)
+        if d.kind == "struct":
+            return ("s", [normv(U, ft, x) for (_, _, ft), x in zip(b, v[1])])
+        return ("t", v[1], [normv(U, ft, x) for (_, _, ft), x in zip(b[v[1]][2], v[2])])
+    return v
 
 
 def corpus_cases():
@@ -224,7 +271,8 @@ def shards_of_cases(cases, n):
     """cases of the same type stay in the same shard"""
     by_tid = {}
     for c in cases:
-        by_tid.setdefault(c.tid, []).append(c)
+        # a vector twin is compiled in the same crate as its original (type names include the crate name)
+        by_tid.setdefault(c.tid.rstrip("w"), []).append(c)
     tids = list(by_tid.keys())
     parts = [[] for _ in range(n)]
     for i, tid in enumerate(tids):
@@ -413,6 +461,14 @@ def tag_counts(U, t, v):
     return out
 
 
+def contains_siter(t):
+    if t[0] == "siter":
+        return True
+    if t[0] == "adt":
+        return any(contains_siter(a) for a in t[2])
+    return any(contains_siter(y) for y in t[1:] if isinstance(y, tuple))
+
+
 def repo_fingerprint():
     """hash of every source file cargo reads under /repo (tracked or not)"""
     h = hashlib.sha256()
@@ -504,7 +560,9 @@ def run_campaign(tier):
     heavy_limit = 700 if tier == "quick" else 4000
 
     def iops(x):
-        ops = ["hdr", "ser", "full", "eps:0", "schema", "flips", "place", "cuts"]
+        si = contains_siter(x.t)
+        ops = ["hdr", "ser", "full", "eps:0", "schema:noagain" if si else "schema", "flips", "place", "cuts", "rfault",
+               "wfault:noagain" if si else "wfault"]
         ops.append("tags:" + ",".join(str(n) for n in c.tagc[x.cid]))
         return ops
 
@@ -521,7 +579,7 @@ def run_campaign(tier):
 
     def mops(x):
         b = "%x" % c.bases.get(x.cid, 0)
-        return ["tinfo", "ser", "full", "eps:" + b, "schema", "flips:" + b, "place:" + b, "cuts:" + b,
+        return ["tinfo", "ser", "full", "eps:" + b, "schema", "wfault", "flips:" + b, "place:" + b, "cuts:" + b,
                 "tags:%s:%s" % (b, ",".join(str(n) for n in c.tagc[x.cid]))]
 
     if okc:
@@ -558,6 +616,10 @@ def agree(c, x, op):
         return m == re.sub(r" same=[yn]$", "", i)
     if op == "place":
         return m.strip() == re.sub(r" misaligned=\d+$", "", i).strip()
+    if op == "wfault":
+        # the implementation also reports real sinks and the re-serialization of the same object
+        keep = lambda s: " ".join(p for p in s.split(" ") if p and not p.startswith(("file=", "devfull=", "again=", "sflush=", "smid=")))
+        return keep(m) == keep(i)
     return m.strip() == i.strip()
 
 
